@@ -1,8 +1,8 @@
 package main
 
 import (
-	"go/constant"
 	"fmt"
+	"go/constant"
 	"sort"
 	"strings"
 )
@@ -315,4 +315,24 @@ func dbgCLI(c *Ctx, r *Report) {
 		show("main: help", o, u)
 	}
 	r.ok("dbg", "x", "")
+}
+
+func init() { register("DBGBIND", "other", dbgBind) }
+
+func dbgBind(c *Ctx, r *Report) {
+	vm, err := c.vmModel()
+	if err != nil {
+		fmt.Println("ERR", err)
+		return
+	}
+	m, err := c.bindModel(vm, []int64{0x11, 0x12, 0x13, 0x1f, 0x21, 0x22, 0x23, 0x2f, 0x10, 0x01, 0x31, 0x14})
+	if err != nil {
+		fmt.Println("ERR", err)
+		return
+	}
+	for _, cell := range m.Cells {
+		fmt.Printf("opt=%#x n=%s old=%q -> binding=%q err=%q warned=%v %v\n", cell.Opt, cell.NClass, cell.HadOld, cell.Binding, cell.Err, cell.Warned, cell.Problems)
+	}
+	fmt.Println("undecided", m.Undecided)
+	r.rule("dbg", 0, "debug")
 }
